@@ -3,10 +3,11 @@ ebb_motion.query_enable_motors. Outcomes are reported as EXTENDED observations i
 import logging
 import os
 
+import ebbfake
 import vlib
 
 
-class HandshakePort:
+class HandshakePort(ebbfake.PortExtras):
     def __init__(self, serial_mod, dev):
         self.serial, self.dev = serial_mod, dev
         self.probes, self.closed, self.pending = 0, False, None
@@ -40,7 +41,7 @@ class HandshakePort:
         self.closed = True
 
 
-class PinPort:
+class PinPort(ebbfake.PortExtras):
     """legacy board answering the five PI pin reads of query_enable_motors"""
 
     def __init__(self, pins):
